@@ -147,6 +147,45 @@ WRITE_OPS = ["w_full", "w_subs", "w_lin", "w_region"]
 BAD_OPS = ["bad_subs_count", "bad_subs_cols", "bad_lin_beyond", "bad_region_shape", "bad_sparse_neg_subs"]
 
 
+ITYPES = {"i64": np.int64, "i32": np.int32, "i16": np.int16, "i8": np.int8, "u8": np.uint8, "u16": np.uint16, "u32": np.uint32, "u64": np.uint64, "intp": np.intp}
+
+
+def _fits(tname, values) -> bool:
+    info = np.iinfo(ITYPES[tname])
+    return all(info.min <= int(v) <= info.max for v in values)
+
+
+def cast_int(step, k):
+    """A python int of a key, handed over as the numpy integer type the step names (if it fits)."""
+    t = step.get("ityp")
+    if t is None or isinstance(k, bool) or not isinstance(k, int) or not _fits(t, [k]):
+        return k
+    return ITYPES[t](k)
+
+
+def cast_arr(step, arr):
+    """An index / subscript array in the integer type and memory layout the step names."""
+    t = step.get("ityp")
+    if t is not None and arr.size and _fits(t, [arr.min(), arr.max()]):
+        arr = arr.astype(ITYPES[t])
+    lay = step.get("alay")
+    if lay == "F":
+        arr = np.asfortranarray(arr)
+    elif lay == "T" and arr.ndim == 2:
+        arr = np.ascontiguousarray(arr.T).T  # a transposed view of another array
+    elif lay == "S":
+        # a strided view into a wider buffer (every second column / element)
+        if arr.ndim == 2:
+            big = np.full((arr.shape[0], 2 * arr.shape[1]), 1, dtype=arr.dtype)
+            big[:, ::2] = arr
+            arr = big[:, ::2]
+        elif arr.ndim == 1:
+            big = np.full(2 * arr.shape[0], 1, dtype=arr.dtype)
+            big[::2] = arr
+            arr = big[::2]
+    return arr
+
+
 def key_to_py(key):
     """Region key from its recorded form: list of int | slice | list[int]."""
     return [k for k in key]
@@ -216,6 +255,8 @@ class EngineA:
             "p_bad": (sw.choice([0.15, 0.3]) if self.prop == "C19" else sw.choice([0.0, 0.0, 0.05])),
             "w_ops": {op: sw.choice([0, 1, 2, 3]) for op in WRITE_OPS},
             "r_ops": {op: sw.choice([1, 2, 3]) for op in READ_OPS},
+            # how often the integers of a key arrive as numpy integer types / its arrays in another layout
+            "p_ityp": sw.choice([0.0, 0.0, 0.25, 0.6]),
         }
         if sum(cfg["w_ops"].values()) == 0:
             cfg["w_ops"]["w_subs"] = 1
@@ -422,6 +463,10 @@ class EngineA:
                 # equivalent subscript-array form so that the history (and the sparse
                 # tensor, which handles this key natively) keeps going
                 step["dense_via_subs"] = True
+            if not step["op"].startswith("bad_") and g.random() < cfg.get("p_ityp", 0.0):
+                step["ityp"] = g.choice(["i64", "i32", "i32", "i16", "i8", "u8", "u8", "u16", "u32", "u64", "intp"])
+                if g.random() < 0.4:
+                    step["alay"] = g.choice(["F", "T", "S"])
             return step
         return None
 
@@ -781,6 +826,12 @@ class EngineA:
         op = step["op"]
         return getattr(self, "_op_" + op)(w, step, i, res)
 
+    @staticmethod
+    def _forms(step) -> str:
+        if step.get("ityp") or step.get("alay"):
+            return f" [integers as {step.get('ityp', 'int')}, arrays {step.get('alay', 'C')}]"
+        return ""
+
     def _call(self, fn, what, op, i):
         """Run SUT code; an exception on an admissible request is a violation."""
         try:
@@ -796,7 +847,7 @@ class EngineA:
             return "skip"
         want = m.get(m.norm(key))
         for name in ("D", "S"):
-            got = self._call(lambda: w[name][tuple(key)], f"{name}[{tuple(key)}]", "r_full", i)
+            got = self._call(lambda: w[name][tuple(cast_int(step, k) for k in key)], f"{name}[{tuple(key)}]{self._forms(step)}", "r_full", i)
             if np.ndim(got) != 0 and np.size(got) != 1:
                 return self._viol("read_returns_model_value", "r_full", i, f"{name}[{tuple(key)}] returned non-scalar {got!r}")
             if float(np.asarray(got).reshape(-1)[0]) != want:
@@ -812,8 +863,8 @@ class EngineA:
             return "skip"
         want = np.array([m.get(r) for r in subs])
         for name in ("D", "S"):
-            arr = np.array(subs, dtype=int).reshape(len(subs), m.order)
-            got = self._call(lambda: w[name][arr], f"{name}[subs {subs}]", "r_subs", i)
+            arr = cast_arr(step, np.array(subs, dtype=int).reshape(len(subs), m.order))
+            got = self._call(lambda: w[name][arr], f"{name}[subs {subs}]{self._forms(step)}", "r_subs", i)
             g = self._flat(got)
             if g.shape != want.shape or not np.array_equal(g, want):
                 return self._viol("read_returns_model_value", "r_subs", i, f"{name}[{subs}] = {g.tolist()}, model says {want.tolist()}")
@@ -834,7 +885,9 @@ class EngineA:
     def _lin_key(self, step):
         key = dec(step["key"])
         if step["form"] == "array":
-            return np.array(key, dtype=int)
+            return cast_arr(step, np.array(key, dtype=int))
+        if step["form"] == "int":
+            return cast_int(step, key)
         return key
 
     def _op_r_lin(self, w, step, i, res):
@@ -964,8 +1017,8 @@ class EngineA:
         m.set(m.norm(key), v)
         for name in ("D", "S"):
             def do(name=name):
-                w[name][tuple(key)] = v
-            self._call(do, f"{name}[{tuple(key)}] = {v}", "w_full", i)
+                w[name][tuple(cast_int(step, k) for k in key)] = v
+            self._call(do, f"{name}[{tuple(key)}] = {v}{self._forms(step)}", "w_full", i)
         if v == 0 and tuple(m.norm(key)) in bc:
             res.bump("probe:zero_write_removes_entry")
         self._write_effect(w, res, bc, bs)
@@ -1001,14 +1054,14 @@ class EngineA:
         arr = np.array(subs, dtype=int).reshape(len(subs), ncol)
 
         def do_d():
-            w["D"][arr.copy()] = (list(vals) if isinstance(vals, list) else vals)
+            w["D"][cast_arr(step, arr.copy())] = (list(vals) if isinstance(vals, list) else vals)
 
         def do_s():
             rhs = np.array(vals, dtype=float).reshape(-1, 1) if isinstance(vals, list) else vals
-            w["S"][arr.copy()] = rhs
+            w["S"][cast_arr(step, arr.copy())] = rhs
 
-        self._call(do_d, f"D[subs {subs}] = {vals}", "w_subs", i)
-        self._call(do_s, f"S[subs {subs}] = {vals}", "w_subs", i)
+        self._call(do_d, f"D[subs {subs}] = {vals}{self._forms(step)}", "w_subs", i)
+        self._call(do_s, f"S[subs {subs}] = {vals}{self._forms(step)}", "w_subs", i)
         self._write_effect(w, res, bc, bs)
         return None
 
@@ -1035,9 +1088,9 @@ class EngineA:
 
         def do_s():
             rhs = np.array(vl, dtype=float).reshape(-1, 1) if isinstance(vals, list) else vals
-            w["S"][arr] = rhs
+            w["S"][cast_arr(step, arr)] = rhs
 
-        self._call(do_s, f"S[subs {arr.tolist()}] = {vals} (mirror of linear write)", "w_lin", i)
+        self._call(do_s, f"S[subs {arr.tolist()}] = {vals} (mirror of linear write){self._forms(step)}", "w_lin", i)
         res.bump("probe:linear_write")
         self._write_effect(w, res, bc, bs)
         return None
@@ -1078,8 +1131,8 @@ class EngineA:
     def _akey(step, key):
         """The region key as handed to the library: index lists as python lists, or as numpy arrays."""
         if step.get("lists_as_arrays"):
-            return tuple(np.array(k, dtype=int) if isinstance(k, list) else k for k in key)
-        return tuple(key)
+            return tuple(cast_arr(step, np.array(k, dtype=int)) if isinstance(k, list) else cast_int(step, k) for k in key)
+        return tuple(cast_int(step, k) for k in key)
 
     def _rhs_array(self, rhs):
         shape = tuple(rhs["shape"])
